@@ -33,7 +33,7 @@ CHECKS = {
              "and everything built on it: factories, convenience methods, add_record / update / flattened, add_attributes, set_time, "
              "add_asserted_type), starting from nothing, every record of every container is in normal form and every namespace manager "
              "satisfies the C03 invariant (induction over the sequence; hstep_normal per operation). Tied to /repo by op-sequence correspondence over all 18 "
-             "kinds x entry paths (new_record, 22 factories, 13 convenience methods) plus a direct normal-form oracle on the real records. Props/C05R: c05_reach_normal - the normal form also holds of every record of every state reachable through add_record, update, add_bundle, flattened() and unified() (Reach), not only through construction and attribute additions.",
+             "kinds x entry paths (new_record, 22 factories, 13 convenience methods) plus a direct normal-form oracle on the real records. Props/C05R: c05_reach_normal - the normal form also holds of every record of every state reachable through add_record, update, add_bundle, flattened() and unified() (Reach), not only through construction and attribute additions. Props/C05X (refused calls): c05_refused_keeps_prefix - when add_attributes(pairs) raises, the record is exactly what the pairs before the refused one produced, the refused pair contributes nothing and nothing after it is looked at; c05_refused_single / c05_refused_on_heap - a refused call with one pair leaves the record, every other record and every container as they were (only the namespace manager may have met a name).",
         note=A_COMMON + " float() and dateutil lexical mappings are assumptions (A-LEX), sampled. The membership multi-entity compatibility "
              "path is not claimed (property text). set_time is a setter: it replaces the slot, it does not refuse.",
         technique="Lean 4 invariant preservation proof over attribute-pair lists + op-sequence correspondence + normal-form oracle",
@@ -100,7 +100,7 @@ CHECKS = {
              "whether it succeeds or raises, by add_record sequences (update, constructors, unified, flattened, add_bundle of a document) and "
              "by allocation (c18_newRecord_wf, c18_addRecords_wf, c18_allocCont_wf); on a coherent container get_record(x) = filter of the "
              "record list by the URI x resolves to, for every spelling (c18_get_record, c18_spelling_independent); get_records(cls) = class "
-             "filter. Correspondence after every record-adding operation, in all 4 spellings, plus an independent scan oracle. All histories (Props/C18R): c18_reachable_wf - coherence of _records and _id_map after any sequence of the public mutators with any arguments; c18_get_record_reachable - get_record on any reachable container is the filter by the denoted URI, in insertion order. Every history (Props/C18S): the coherence invariant WF is also kept by add_record, update, add_bundle, flattened() and unified() of bundles and documents, with any arguments, whether they succeed or raise (dstep_wf18), so in every state the public interface can produce (ReachAny: mutators and deriving operations in any order) every container is coherent (c18_reachAny_wf) and get_record in every spelling finds exactly the records with that identifier, in insertion order - also in unified / flattened / updated documents and in their sources afterwards (c18_get_record_reachAny; instance: the merged record of a unified bundle). Props/C18T: in every reachable state each record reference is listed once and the index has one entry per identifier URI (reachAny_wf2), so an index entry IS the sub-list of records carrying that identifier (entry_is_byId, Props/C08J).",
+             "filter. Correspondence after every record-adding operation, in all 4 spellings, plus an independent scan oracle. All histories (Props/C18R): c18_reachable_wf - coherence of _records and _id_map after any sequence of the public mutators with any arguments; c18_get_record_reachable - get_record on any reachable container is the filter by the denoted URI, in insertion order. Every history (Props/C18S): the coherence invariant WF is also kept by add_record, update, add_bundle, flattened() and unified() of bundles and documents, with any arguments, whether they succeed or raise (dstep_wf18), so in every state the public interface can produce (ReachAny: mutators and deriving operations in any order) every container is coherent (c18_reachAny_wf) and get_record in every spelling finds exactly the records with that identifier, in insertion order - also in unified / flattened / updated documents and in their sources afterwards (c18_get_record_reachAny; instance: the merged record of a unified bundle). Props/C18T: in every reachable state each record reference is listed once and the index has one entry per identifier URI (reachAny_wf2), so an index entry IS the sub-list of records carrying that identifier (entry_is_byId, Props/C08J). Props/C18X (no ghost record): c18_refused_newRecord / c18_refused_newRecord_lookups / c18_refused_addRecord - a new_record, factory or add_record call that raises leaves the record array, every record list, every identifier index and every bundle table exactly as they were, so get_record and get_records answer as before.",
         note=A_COMMON + " 'prefix:local'/bare spellings denote what valid_qualified_name resolves them to (C03). The full-URI spelling "
              "needed a fix: commit (adopted default namespace).",
         technique="Lean 4 refinement proof (index = filter of list) by induction over heap operations + op-sequence correspondence",
@@ -170,7 +170,7 @@ CHECKS = {
              "(c09_newRecord_appends); an add_record sequence leaves the target with its former records followed by one new record per source "
              "record, same kinds, same order, other cells untouched (c09_addRecords_conserves). Strict URI-level multiset conservation, refusals "
              "(duplicate / missing identifier / nested bundles) and immutability of `other` are checked on the real code by a conservation "
-             "oracle and by correspondence. On the heap (Props/C09D): c09_addRecord_heap (add_record of a stored record never fails, appends exactly one fresh record == to its source to that container only, writes no existing cell), c09_addRecords_heap (whole sequences, copies paired with sources in order), c09_flattened_heap. Props/C09E: the premise 'stored record' is an invariant of every history of the public mutators (c09_reachable_stored, c09_reachable_wf: managers, index ranges, required identifiers too), hence c09_flattened_reachable without hypotheses on the records. Props/C09F: add_bundle - every refusal leaves the receiving document's cell as it was (c09_addBundle_error_frame; the three refusals named by the property: c09_addBundle_refuses_nested/_missing_id/_duplicate); success adds exactly one bundle-table entry under the resolved, previously unused identifier, holding the stand-alone bundle itself or == copies of all records of the added document (c09_addBundle_attaches_bundle/_document). Props/C09G: update - c09_updateBundle_heap/_refuses; ProvDocument.update(other) succeeds and is a chain of steps (Chain/Step), one per bundle of other, each appending == copies of that bundle's records to the bundle of d with the same identifier URI or to a bundle created for it, writing nothing else (updateDoc_go_chain, c09_updateDoc_heap), with a reachable two-document instance. Props/C09H: c09_flattened_reach - flattened() of any document with bundles in ANY reachable state (Reach: mutators and deriving operations in any order) succeeds and conserves. Likewise c09_updateBundle_reach (ProvBundle.update appends == copies to exactly the target) and c09_addBundle_document_reach (add_bundle of a bundle-free document) with no hypothesis on records, managers or indices.",
+             "oracle and by correspondence. On the heap (Props/C09D): c09_addRecord_heap (add_record of a stored record never fails, appends exactly one fresh record == to its source to that container only, writes no existing cell), c09_addRecords_heap (whole sequences, copies paired with sources in order), c09_flattened_heap. Props/C09E: the premise 'stored record' is an invariant of every history of the public mutators (c09_reachable_stored, c09_reachable_wf: managers, index ranges, required identifiers too), hence c09_flattened_reachable without hypotheses on the records. Props/C09F: add_bundle - every refusal leaves the receiving document's cell as it was (c09_addBundle_error_frame; the three refusals named by the property: c09_addBundle_refuses_nested/_missing_id/_duplicate); success adds exactly one bundle-table entry under the resolved, previously unused identifier, holding the stand-alone bundle itself or == copies of all records of the added document (c09_addBundle_attaches_bundle/_document). Props/C09G: update - c09_updateBundle_heap/_refuses; ProvDocument.update(other) succeeds and is a chain of steps (Chain/Step), one per bundle of other, each appending == copies of that bundle's records to the bundle of d with the same identifier URI or to a bundle created for it, writing nothing else (updateDoc_go_chain, c09_updateDoc_heap), with a reachable two-document instance. Props/C09H: c09_flattened_reach - flattened() of any document with bundles in ANY reachable state (Reach: mutators and deriving operations in any order) succeeds and conserves. Likewise c09_updateBundle_reach (ProvBundle.update appends == copies to exactly the target) and c09_addBundle_document_reach (add_bundle of a bundle-free document) with no hypothesis on records, managers or indices. Props/C09X: c09_refused_updateBundle - bundle.update(document with bundles) is refused before anything is touched (the heap is the same).",
         note=A_COMMON + " The composition of the record-level theorem with the heap plumbing of new_record (identifier resolution, element "
              "identifier check, cell allocation) is by correspondence; c09_addRecords_conserves covers kinds, counts and frames.",
         technique="Lean 4: content theorem for re-created records (all managers, all stored records) + induction over add_record sequences + correspondence + oracle",
